@@ -27,7 +27,7 @@ export TMPDIR="$SCR"
 export VERIF_SCRATCH="$SCR"
 if [ -n "$RACE" ]; then
   export VERIF_RACE_LOG="$SCR/race"
-  export GORACE="halt_on_error=0 log_path=$SCR/race history_size=3"
+  export GORACE="halt_on_error=0 exitcode=0 log_path=$SCR/race history_size=3"
 fi
 if [ "$TIER" = "thorough" ]; then TO="${VERIF_TIMEOUT:-5400}"; else TO="${VERIF_TIMEOUT:-900}"; fi
 [ -f "$pkg/TIMEOUT_$TIER" ] && TO="$(cat "$pkg/TIMEOUT_$TIER")"
